@@ -199,6 +199,21 @@ for _pid, _subs in _STALE5.items():
             _t, _n = _t.replace(_a, _b), _n.replace(_a, _b)
     CLAIMED[_pid] = (_t, _n, _r)
 
+# ---- eighth round ----
+extend("C02", "the NSEC3 twin of the zone model (hashes from a collision-free table in place of SHA-1; ring preparation, match/cover lookup, closest-encloser search and the proof rules are the real code): for every subset of a 9-record genuine NSEC3 chain the exact-response verifiers and the RFC 8198 NSEC3 classifier never deny a name that exists nor a present type (DS only at a zone cut), and with Opt-Out set nothing accepted through a next-closer cover is reported secure (thorough tier); an RFC 8020 subtree cut answers a query only at or below the denied name, label by label, in the same class, while alive - on the decoded index and on the hash-keyed byte-path index under arbitrary collisions.")
+extend("C03", "a background refresh (Store.ReplaceIfCurrent) stores its result in the partition of the entry it replaces - that entry's CD value and ECS audience, not the refreshed response's - with the refresh's delegation lease, and only through the identity compare-and-swap against the claimed entry.")
+extend("C13", "a useful answer (FailureCache.ResetMatching) clears only the failure history it disproves - that very question, and ancestor-zone failures of the same class - even when every key collides (thorough tier).")
+_STALE6 = {
+ "C02": [("NSEC3 hashing, NSEC3 closest-encloser proofs end to end and the aggressive-use classifier are outside this check.", "The SHA-1 NSEC3 hash itself (iterations, salt, collisions) is outside this check.")],
+ "C03": [("Interleavings of stores/purges and the alias-chase lookup route are outside this check.", "Purges and the alias-chase lookup route are outside this check.")],
+}
+for _pid, _subs in _STALE6.items():
+    _t, _n, _r = CLAIMED[_pid]
+    for _a, _b in _subs:
+        if _a in _t or _a in _n:
+            _t, _n = _t.replace(_a, _b), _n.replace(_a, _b)
+    CLAIMED[_pid] = (_t, _n, _r)
+
 NA_REASON = "no check registered yet: the solver-based harness for this property is still being built in this session (see DESIGN.md §5 for the plan)"
 def main():
     props = [json.loads(l) for l in open(os.path.join(ROOT, "properties.jsonl"))]
